@@ -158,7 +158,7 @@ class PyKdebugParser:
         formatted_data += f'{hex(tid):<12}' if self.show_tid else ''
         if self.show_process:
             formatted_data += f'{self._format_process(tid):<27}'
-        formatted_data += f'{str(event.data):<34}' if self.show_args else ''
+        formatted_data += f'{repr(event.data):<34}' if self.show_args else ''
         return formatted_data
 
     def _format_trace(self, trace):
